@@ -61,6 +61,8 @@ type report struct {
 
 const rtPath = "github.com/vx-labs/wasp/v4/verifrt"
 
+var noYieldFiles = map[string]bool{}
+
 func main() {
 	dir := flag.String("dir", "", "scratch copy of the module")
 	mode := flag.String("mode", "maporder", "maporder|lockstep")
@@ -68,9 +70,15 @@ func main() {
 	reportPath := flag.String("report", "", "where to write the JSON report")
 	sitesPath := flag.String("sites", "", "where to write the yield site table")
 	tags := flag.String("tags", "verif", "build tags")
+	noYieldFlag := flag.String("noyield", "", "comma separated module-relative files that get no yields (callbacks run by uninstrumented code under its own locks)")
 	flag.Parse()
 	if *dir == "" {
 		fatal("need -dir")
+	}
+	for _, f := range strings.Split(*noYieldFlag, ",") {
+		if f != "" {
+			noYieldFiles[f] = true
+		}
 	}
 	yieldPkgs := map[string]bool{}
 	for _, p := range strings.Split(*pkgsFlag, ",") {
@@ -297,7 +305,7 @@ func instrumentPkg(fset *token.FileSet, imp types.Importer, p listPkg, rel strin
 			return true
 		})
 
-		if doYield && !isPB {
+		if doYield && !isPB && !noYieldFiles[short] {
 			addYields := func(list []ast.Stmt) {
 				for _, st := range list {
 					switch st.(type) {
